@@ -29,6 +29,7 @@ type c01Case struct {
 	Warm      int     `json:"warm"`                  // 0: fresh key objects; 1/2: both key objects first carry a long / an empty message (history on one SA)
 	PadOctet  int     `json:"pad_octet"`             // > 0: the random source serves the constant octet PadOctet-1 (every outcome of the random padding)
 	HMode     int     `json:"header_mode,omitempty"` // with ParseH: 0 header parsed from the datagram; 1 from its first 28 octets only; 2 from a receive buffer that is reused before DecodeDecrypt runs on a copy; 3 built with NewHeader from peeked fields
+	Derived   int     `json:"derived,omitempty"`     // 1: the sender's SA comes from GenerateKeyForIKESA and the receiver is assembled from the SK_* fields that SA exports; 2: the sender holds only the objects protecting needs
 	FailFirst int     `json:"fail_first,omitempty"`  // > 0: a first protection attempt fails (1..3: the random source fails at read FailFirst-1; 4: incomplete key set) and the caller retries with the same message object
 }
 
@@ -127,6 +128,8 @@ func runC01(c *engine.Ctx) {
 							evalC01(c, c01Case{K: "rt", Name: name, M: m, Suite: si, Pattern: pat, SenderI: sI, ParseH: ph, Fits: true, Warm: 1 + (si+b2int(sI)+b2int(ph))%2})
 							if !ph && len(m.P) <= 1 {
 								evalC01(c, c01Case{K: "rt", Name: name, M: m, Suite: si, Pattern: pat, SenderI: sI, Fits: true, Warm: 3})
+								evalC01(c, c01Case{K: "rt", Name: name, M: m, Suite: si, Pattern: pat, SenderI: sI, Fits: true, Derived: 1})
+								evalC01(c, c01Case{K: "rt", Name: name, M: m, Suite: si, Pattern: pat, SenderI: sI, Fits: true, Derived: 2})
 							}
 							if ph {
 								// other ways a receiver may have obtained the header object
@@ -269,6 +272,29 @@ func evalC01env(c *engine.Ctx, cs c01Case, r *engine.Run) {
 		c.Violate("sa-construction", fmt.Sprintf("%v %v", err1, err2), cs)
 		return
 	}
+	switch cs.Derived {
+	case 1:
+		// the sender derives its keys through the key schedule; the receiver (a standby, a test peer, an exported
+		// key set) is built from the SK_* fields the derived object shows
+		d := &security.IKESAKey{DhInfo: saS.DhInfo, EncrInfo: saS.EncrInfo, IntegInfo: saS.IntegInfo, PrfInfo: saS.PrfInfo}
+		if err := d.GenerateKeyForIKESA(univ.Pat(40, cs.Pattern), univ.Pat(256, cs.Pattern+1), 11, 12); err != nil {
+			c.Violate("sa-construction/derived", errStr(err), cs)
+			return
+		}
+		ks.K = ref.IKEKeys{SKd: d.SK_d, SKai: d.SK_ai, SKar: d.SK_ar, SKei: d.SK_ei, SKer: d.SK_er, SKpi: d.SK_pi, SKpr: d.SK_pr}
+		saS = d
+		if saR, err2 = univ.NewSA(ks); err2 != nil {
+			c.Violate("sa-construction/from-exported-fields", errStr(err2), cs)
+			return
+		}
+	case 2:
+		// the sender holds only what protecting in its role needs according to the library's own checks: the
+		// responder-side objects (which encryptMsg insists on for either role) and, for the initiator, its own
+		if !cs.SenderI {
+			saS.Encr_i, saS.Integ_i = nil, nil
+		}
+		saS.Prf_i, saS.Prf_r, saS.Prf_d = nil, nil, nil
+	}
 	if cs.Warm != 0 {
 		var werr error
 		if pi := engine.Catch(func() { werr = warmUp(saS, saR, cs.SenderI, cs.Warm) }); pi != nil || werr != nil {
@@ -377,6 +403,9 @@ func evalC01env(c *engine.Ctx, cs c01Case, r *engine.Run) {
 	}
 	if cs.FailFirst != 0 {
 		tag += "/retry-after-failed-attempt"
+	}
+	if cs.Derived != 0 {
+		tag += fmt.Sprintf("/key-set-%d", cs.Derived)
 	}
 	if cs.Warm != 0 {
 		tag += "/used-sa"
